@@ -17,7 +17,7 @@ open Folang.Offside
 exactly at the first token that is left of the block (or the end of input) -/
 theorem block_roundtrip (top c : Nat) (ts : List T) (toks rest : List Tok)
     (hl : LBlock c ts toks) (htop : top < c) (he : Ends c rest) :
-    ∃ N, ∀ f, N ≤ f → pBlock f top (toks ++ rest) = some (ts, rest) := by
+    ∃ N, ∀ f, N ≤ f → pBlock f top (toks ++ rest) = .ok ts rest := by
   obtain ⟨N, hN⟩ := pList_lays ts c toks rest hl he
   refine ⟨N + 1, fun f hf => ?_⟩
   obtain ⟨f, rfl⟩ : ∃ g, f = g + 1 := ⟨f - 1, by omega⟩
@@ -32,23 +32,23 @@ text — are read as the same structure -/
 theorem layout_invariance (ts : List T) (top₁ c₁ top₂ c₂ : Nat) (toks₁ rest₁ toks₂ rest₂ : List Tok)
     (h₁ : LBlock c₁ ts toks₁) (h₂ : LBlock c₂ ts toks₂) (ht₁ : top₁ < c₁) (ht₂ : top₂ < c₂)
     (he₁ : Ends c₁ rest₁) (he₂ : Ends c₂ rest₂) :
-    ∃ N, ∀ f, N ≤ f → (pBlock f top₁ (toks₁ ++ rest₁)).map (·.1) = (pBlock f top₂ (toks₂ ++ rest₂)).map (·.1) := by
+    ∃ N, ∀ f, N ≤ f → pBlock f top₁ (toks₁ ++ rest₁) = .ok ts rest₁ ∧ pBlock f top₂ (toks₂ ++ rest₂) = .ok ts rest₂ := by
   obtain ⟨N₁, hN₁⟩ := block_roundtrip top₁ c₁ ts toks₁ rest₁ h₁ ht₁ he₁
   obtain ⟨N₂, hN₂⟩ := block_roundtrip top₂ c₂ ts toks₂ rest₂ h₂ ht₂ he₂
-  exact ⟨N₁ + N₂, fun f hf => by rw [hN₁ f (by omega), hN₂ f (by omega)]; rfl⟩
+  exact ⟨N₁ + N₂, fun f hf => ⟨hN₁ f (by omega), hN₂ f (by omega)⟩⟩
 
 /-- "conversely a line indented less than its block ends that block": whatever follows the block,
 if its first token is left of the block's column the block is exactly the statements before it and
 that line is left for the enclosing block -/
 theorem dedent_ends_block (top c : Nat) (ts : List T) (toks : List Tok) (n col : Nat) (r : List Tok)
     (hl : LBlock c ts toks) (htop : top < c) (hcol : col < c) :
-    ∃ N, ∀ f, N ≤ f → pBlock f top (toks ++ ⟨.word n, col⟩ :: r) = some (ts, ⟨.word n, col⟩ :: r) :=
+    ∃ N, ∀ f, N ≤ f → pBlock f top (toks ++ ⟨.word n, col⟩ :: r) = .ok ts (⟨.word n, col⟩ :: r) :=
   block_roundtrip top c ts toks _ hl htop ⟨_, r, rfl, ⟨fun h => (by cases h), Or.inr hcol⟩⟩
 
 /-- a block must start right of the enclosing block ("Overrun offside rule") -/
-theorem overrun_rejected (f top : Nat) (toks : List Tok) (h : curCol toks ≤ top) : pBlock f top toks = none := by
+theorem overrun_rejected (f top : Nat) (toks : List Tok) (h : curCol toks ≤ top) : pBlock (f + 1) top toks = .reject := by
   cases f with
-  | zero => rfl
+  | zero => simp [pBlock, h]
   | succ f => simp [pBlock, h]
 
 /-- the result does not depend on the fuel once it suffices -/
@@ -103,8 +103,8 @@ theorem lay₂_lays : LBlock 0 exT lay₂ := by
 
 /-- both layouts are read as the same structure by the executable parser (top-level blocks start at
 column 0; the initial offside stack of the real parser is [0], the model's root is one level up) -/
-example : pList 20 0 (lay₁ ++ [⟨.eof, 0⟩]) = some (exT, [⟨.eof, 0⟩]) := by rfl
-example : pList 20 0 (lay₂ ++ [⟨.eof, 0⟩]) = some (exT, [⟨.eof, 0⟩]) := by rfl
+example : pList 20 0 (lay₁ ++ [⟨.eof, 0⟩]) = .ok exT [⟨.eof, 0⟩] := by rfl
+example : pList 20 0 (lay₂ ++ [⟨.eof, 0⟩]) = .ok exT [⟨.eof, 0⟩] := by rfl
 
 /-! ### what the real parser looks at (regenerated from fc/*.go on every run)
 
